@@ -94,6 +94,8 @@ def run(ctx):
         big = {"dtype": "int32", "shape": [70001], "data": [(i * 7919) % 1009 - 500 for i in range(70001)]}
         for f_, orc in (("sort", "out = np.sort(x, kind='stable')"), ("argsort", "out = np.argsort(x, kind='stable')")):
             cases.append(families.mkcase(f"S-big-{f_}", {"x": big}, f"out = ndx.{f_}(x)", orc, {"func": f_, "dtype": "int32", "dclass": "int", "big": True}, rnd))
+    # the same call repeated on one array object after an in-place update
+    cases += families.call_update_call(rnd, [c for c in cases if not c["meta"].get("big")], 80 if ctx.tier == "quick" else 600)
     for c in cases:
         c["lazy_subsets"] = c["lazy_subsets"][:1] if rnd.random() < 0.4 else []
     family.evaluate(ctx, cases, want=("oracle", "traced", "static"), per_case_timeout=300)
